@@ -16,7 +16,11 @@ Section Probe.
 
   Inductive pinstr :=
   | PI (i : instr (F := F))
-  | PProbe (h : nat).
+  | PProbe (h : nat)
+  (* [*h.gradient_mut() = Some(Array::from((d, v)))]: a caller-made gradient written over the stored one.  Not one
+     of the model's instructions (no theorem quantifies over it); it exists so that the correspondence runs can put
+     the stored-gradient cell into states the instructions alone never reach. *)
+  | PSetGrad (h : nat) (d : list nat) (v : list F).
 
   Definition is_some {A} (o : option A) : bool := match o with Some _ => true | None => false end.
 
@@ -45,6 +49,15 @@ Section Probe.
         (* like every instruction, a probe occupies one (empty) pool slot, so that variable i
            remains the result of instruction i *)
         let '(os, b) := prun_from (push s None) p' in (o :: os, b)
+      end
+    | PSetGrad h d v :: p' =>
+      match (x <- var s h ;;
+             nd <- h_node s x ;;
+             a <- mk d v ;;
+             g <- put (st_nodes s) (e_node x) (set_grad nd (Some a)) ;;
+             Some (with_nodes s g, o_grad (n_grad nd))) with
+      | None => ([], true)
+      | Some (s1, o) => let '(os, b) := prun_from (push s1 None) p' in (o :: os, b)
       end
     end.
 
